@@ -141,6 +141,25 @@ def cdecOp (args : List String) : String :=
     showObs (kind == "unary" || kind == "client") (clientDecode decStatus cfg stext { status := status, header := hdr, body := body, trailer := trl })
   | _, _, _, _, _, _, _, _, _ => "bad-op"
 
+def showRecvClass : RecvClass → String
+  | .msg m => "ok:" ++ hexOut' m
+  | .eof => "eof"
+  | .fail c => s!"fail:{c}"
+
+def rseqOp (args : List String) : String :=
+  match kv' args "proto", (kv' args "max").bind String.toNat?, (kv' args "n").bind String.toNat?,
+        (kv' args "hdr").bind parseHeader, (kv' args "body").bind parseBody, (kv' args "trl").bind parseHeader with
+  | some proto, some max, some n, some hdr, some body, some trl =>
+    let p := parseProto' proto
+    let cfg : CCfg := { proto := p, kind := .bidi, accepts := ["gzip".toUTF8.toList, "rle".toUTF8.toList], pool := rleCompressor, max := max }
+    let encName := match p with
+      | .connect => Header.get hdr Gen.hdrConnectStreamEncoding
+      | _ => Header.get hdr Gen.hdrGrpcEncoding
+    let r : Resp := { status := 200, header := hdr, body := body, trailer := trl }
+    let items := toRItems decStatus (fun m => (rawCodec.unmarshal m).isNone) cfg (encodingPool cfg encName) r
+    " ".intercalate ((receiveMany n { stored := none, items := items }).map showRecvClass)
+  | _, _, _, _, _, _ => "bad-op"
+
 /-! ### handler side: arbitrary requests -/
 
 def jsonTable (d : Bytes) : Bool := d == [123, 125]                          -- "{}"
